@@ -9,7 +9,7 @@
    it is notified of its cancellation) and every script (registrations, cancellations, clock advances,
    NOHANG and sleeping iterations). *)
 From Coq Require Import ZArith List.
-From Tickit Require Import LoopDefs LoopSpec LoopAsIs LoopProofs LoopRefine LoopOrder LoopSpecEq LoopHeap LoopHeapProofs LoopChain LoopChainProofs.
+From Tickit Require Import LoopDefs LoopSpec LoopAsIs LoopProofs LoopRefine LoopOrder LoopSpecEq LoopHeap LoopHeapProofs LoopChain LoopChainProofs LoopIo LoopIoProofs.
 Import ListNotations.
 Local Open Scope Z_scope.
 
@@ -159,6 +159,22 @@ Theorem C17_process_witness :
   l_run true pw_env pw_ops = pw_log /\ h_crun true pw_env 50 pw_ops = Some (pw_log, true).
 Proof. exact process_witness. Qed.
 Print Assumptions C17_process_witness.
+
+(* ---- IO watches of the BUILT instance at the heap level: the chain t->iowatches and the default
+   event loop's slot arrays, with the terminal watch that tickit_build registers in cell 0 / slot 0;
+   dispatch of ready descriptors while callbacks cancel and register, destruction: no read of a
+   freed node, every node freed, the specification's log -- for every callback table and script *)
+Theorem C17_io_safe : forall env ops, hi_run env ops = Some (j_run env ops, true).
+Proof. exact io_safe. Qed.
+Print Assumptions C17_io_safe.
+
+Theorem C17_built_alone : forall env, hi_run env [] = Some ([], true).
+Proof. exact built_alone. Qed.
+Print Assumptions C17_built_alone.
+
+Theorem C17_io_witness : j_run iw_env iw_ops = iw_log /\ hi_run iw_env iw_ops = Some (iw_log, true).
+Proof. exact io_witness. Qed.
+Print Assumptions C17_io_witness.
 
 (* ---- the pinned code *)
 Theorem C17_refuted_use_after_free : a_run true w22a_env 100 w22a_ops = None.
